@@ -256,7 +256,7 @@ mut('reposition-by-fresh-size', 'File.cpp', [[NEWPOS, OLDPOS]],
     ['C10'], ['T1|decode-loop'], 'step back by objectSize - calculateObjectSize() of the fresh object: a LinMessage2 declaring 16..20 bytes is delivered forever')
 mut('reposition-from-header-peek', 'File.cpp', [["    m_uncompressedFile.seekg(-ohb.calculateHeaderSize(), std::ios_base::cur);\n\n    /* create object */", "    const std::streampos objectBegin = m_uncompressedFile.tellg();\n    m_uncompressedFile.seekg(-ohb.calculateHeaderSize(), std::ios_base::cur);\n\n    /* create object */"],
                                                  ["    const std::streampos objectBegin = m_uncompressedFile.tellg();\n    obj->read(m_uncompressedFile);", "    obj->read(m_uncompressedFile);"]],
-    ['C10', 'C09', 'C01'], ['T1|decode-loop'], 'the start mark is taken behind the peeked header: every short object is followed by 16 bytes too many')
+    ['C10'], ['T1|decode-loop'], 'the start mark is taken behind the peeked header: every short object is followed by 16 bytes too many')
 mut('drop-single-container', 'UncompressedFile.cpp', [["    while (!m_data.empty()) {\n        std::shared_ptr<LogContainer> logContainer = m_data.front();", "    if (!m_data.empty()) {\n        std::shared_ptr<LogContainer> logContainer = m_data.front();"]],
     ['C12'], ['P7|dropOldData'], 'one container released per call: objects larger than a container leave the rest behind')
 mut('worker-aborts-stream', 'File.cpp', [["            } catch (Vector::BLF::Exception &) {\n                file->m_uncompressedFileThreadRunning = false;\n            }", "            } catch (Vector::BLF::Exception &) {\n                file->m_uncompressedFileThreadRunning = false;\n                file->m_uncompressedFile.abort();\n            }"]],
@@ -398,6 +398,18 @@ def main():
                 if (k_, i_) == ('u', 2):
                     e_['undecided_ok'] = True   # immediately invoked lambda in ObjectQueue::read: the rules answer 'undecided' (exit 2), not an alarm
                 ext.append(e_)
+    # third batch (after the round-3 rules: larger extractions, loop forms, lambdas, named constants on the repaired tree); all properties
+    ALLP = ['C%02d' % i for i in range(1, 18)]
+    for k_ in ext_props:
+        notes = {}
+        np_ = os.path.join('/verif/benign', 'agent3-%s-notes.json' % k_)
+        if os.path.exists(np_):
+            notes = {n_['name']: n_ for n_ in json.load(open(np_))}
+        for i_ in range(1, 7):
+            f_ = 'agent3-%s-r%d.patch' % (k_, i_)
+            if os.path.exists(os.path.join('/verif/benign', f_)):
+                ext.append({'name': 'agent3-%s-r%d' % (k_, i_), 'patch': f_, 'properties': sorted(set(ext_props[k_]) | ({'C08', 'C09', 'C10', 'C15', 'C16'} if k_ in 'fu' else {'C08', 'C10'})),
+                            'note': (notes.get('r%d' % i_, {}).get('what') or '')[:200], 'origin': 'sub-agent'})
     idx = {'mutants': [{k: v for k, v in m.items() if k not in ('pairs', 'extra_edits', 'all_occurrences')} for m in M],
            'benign': [{k: v for k, v in m.items() if k not in ('pairs', 'extra_edits')} for m in G] + ext}
     json.dump(idx, open('/verif/mutants/index.json', 'w'), indent=1)
